@@ -116,6 +116,13 @@ fn c30_node_history_k5() {
     node_history(5);
 }
 
+#[kani::proof]
+#[kani::unwind(10)]
+#[kani::stub(alloc::fmt::format, fmt_stub)]
+fn c30_node_history_k8() {
+    node_history(8);
+}
+
 struct Fnv(u64);
 impl Hasher for Fnv {
     fn finish(&self) -> u64 {
